@@ -14,6 +14,20 @@ Deciding monitor M (boundary oracle on the public API, nothing else):
   text block so that the block never sees its '.', the same call must raise
   ValueError.
 
+* M.collect / M.triples - the same scripts with the patches COLLECTED before they
+  are applied (``list(...)``, ``tuple(...)``, and a two-pass use: iterate once,
+  read the collected list, apply it, apply it to a second copy): the result must
+  again equal ``new``.  The collected triples are compared with the reference
+  interpreter's triples (first, last, replacement lines) after the WHOLE script
+  has been consumed - by value, by identity of the text objects and, in the
+  two-pass use, against what each triple looked like when it was yielded - to
+  name the mechanism (shared text object, patch object yielded twice, text
+  changed after yield, index differs, patch_lines treating a sequence
+  differently from an iterator or consuming it).
+* M.apply.empty - the EMPTY script (old == new, the empty file included; from
+  difflib and from `diff -e`) through every source kind and every use: a no-op
+  that never raises.
+
 Every script is first run through the strict reference interpreter of
 vp.models.edscript (must reproduce `new` / must reject): if my own model
 disagrees with my own generator the case is dropped and the run is
@@ -55,7 +69,22 @@ RULE = ('Pairs (old, new) of 0..12 newline-terminated lines (thorough: occasiona
         'same content; truncations and corrupted commands of such scripts; commands with a break character before / '
         'inside / after them or preceded by "x<B>" (break-in-command).  MULTI-BLOCK TRUNCATION (reject:trunc-multi:*): '
         'scripts built to have >= 3 text blocks (3..5 separated hunks) cut inside the first, a middle and the LAST text '
-        'block, each at block start / mid-block / before the "." / mid-line.')
+        'block, each at block start / mid-block / before the "." / mid-line.  '
+        'COLLECTED PATCHES (collect:*, M.collect / M.triples): every application case above is run piped '
+        '(patch_lines(lines, patches_from_ed_script(S))) AND with the patches collected first - use "list" '
+        '(patches = list(...)), "tuple", or "two-pass" (a for loop that keeps each yielded triple and a by-value snapshot '
+        'of it; when S is a list it is first parsed once for errors only and then parsed again; the collected list is '
+        'read once without being touched, applied to a copy of old, and applied again to a second copy); one use per '
+        'random case, all three for the enumerated old<=4 x new<=5 sub-space and the multi-block scripts.  After the '
+        'whole script has been consumed the collected triples are compared with the reference triples (first, last, '
+        'replacement lines): by value, by identity of the replacement-list objects of commands with a non-empty text, by '
+        'identity of the triples, and against the at-yield snapshots.  collect:different-texts>=2 counts the scripts '
+        'with >= 2 text blocks of different content (where a shared / reused replacement list cannot be right).  '
+        'EMPTY SCRIPT (empty:*, M.apply.empty): old == new - 6 fixed files (the empty file, 1 line, 3 lines, a blank '
+        'line, command look-alikes, embedded line-boundary characters) x list / iterator / in-memory file / on-disk '
+        'file x the three uses x difflib / `diff -e`, plus random files of 0..12 lines (plain, hostile alphabet, '
+        'line-boundary class), str and bytes: the script has no line at all; it must apply as a no-op (lines equal to '
+        'old afterwards) and never raise; such cases are trivial for distinct_nontrivial.')
 ASSUMPTIONS = ['vp.models.edscript (script deriver + strict reference interpreter) is right; every script is self-checked '
                'against the reference interpreter before use and `diff -e` (GNU diffutils) is a second script source',
                'domain: every line ends in exactly one newline and no content line is a lone "." (ed cannot carry either; '
@@ -78,7 +107,28 @@ ASSUMPTIONS = ['vp.models.edscript (script deriver + strict reference interprete
                'a command line with a line-boundary character before, inside or after the "N[,M]letter" text is a '
                'syntactically corrupted command (same footing as the blanks / junk-suffix classes)',
                '`diff -e` (run with LC_ALL=C) is only believed where its script passes the reference-interpreter '
-               'self-check; a refused script makes the run INCONCLUSIVE, never a violation']
+               'self-check; a refused script makes the run INCONCLUSIVE, never a violation',
+               'collected patches: the VERDICT is the application result (patch_lines(copy of old, collected) must equal '
+               'new); the triple-by-triple comparison with the reference only names the mechanism.  Collected triples that '
+               'differ from the reference triples but still apply to the target (an equivalent formulation: other index '
+               'form for an append, split or merged commands, shared objects that happen to hold equal text) are counted '
+               '(collect:triples-differ-but-equivalent/*, collect:text-object-shared), never accused',
+               'a yielded patch is anything that unpacks into (first, last, text); text is compared as list(text), so a '
+               'tuple or other sequence of the right lines is accepted; identity is only looked at between commands whose '
+               'reference text is non-empty (d commands may share any empty object)',
+               'the collected patches are only read by the harness, never mutated; in the two-pass use the same collected '
+               'list is applied to two separate copies of old and both must become new - patch_lines documents that it '
+               'updates `lines`, nothing lets it consume or alter `patches` (a list is re-iterable), and parsing a script '
+               'held in a list must leave that list as it was (only checked to name the mechanism when the second parse '
+               'gives another result)',
+               'the collected forms are only run when the piped form of the same script held (a piped failure is reported '
+               'once, not four times)',
+               'empty script: the correct script for old == new has no line at all (difflib yields no opcode, `diff -e` '
+               'prints nothing); "yields exactly the target lines" then means the lines are unchanged, and since it is '
+               'well-formed it must not raise.  Nothing is demanded about the type of an empty source beyond what the '
+               'source kinds give (empty list, exhausted generator, StringIO("") / BytesIO(b""), empty file opened in '
+               'text / binary mode); for the empty script the str and the bytes run differ only in the type of the old '
+               'lines and of the file object']
 ANCHORS = ['debian.debian_support:patches_from_ed_script', 'debian.debian_support:patch_lines']
 MUST_REACH = list(ANCHORS)
 
@@ -89,12 +139,13 @@ BRK_PAIRS = {'quick': 12000, 'thorough': 400000}
 BRK_MALFORMED = {'quick': 3000, 'thorough': 80000}     # as MALFORMED
 MULTIBLOCK = {'quick': 1600, 'thorough': 50000}        # base scripts; each yields 8..15 truncations
 BRK_DIFFE = {'quick': 600, 'thorough': 30000}
-EMPTY = {'quick': 2400, 'thorough': 60000}             # old == new (empty script), random files; + a complete matrix
-EMPTY_DIFFE = {'quick': 300, 'thorough': 8000}
+EMPTY = {'quick': 4000, 'thorough': 120000}             # old == new (empty script), random files; + a complete matrix
+EMPTY_DIFFE = {'quick': 600, 'thorough': 16000}
 
 FLOORS = {
     'quick': {'nontrivial': 64000,
-              'monitors': {'M.apply': 74000, 'M.reject': 91000, 'M.apply.brk': 10000, 'M.reject.brk': 20000},
+              'monitors': {'M.apply': 79000, 'M.reject': 91000, 'M.apply.brk': 10000, 'M.reject.brk': 20000,
+                           'M.collect': 91000, 'M.triples': 91000, 'M.apply.empty': 13000},
               'counters': {'cmd:a@0': 9500, 'cmd:a@end': 4600, 'cmd:a@mid': 4900, 'cmd:c1': 10000, 'cmd:cN': 5900,
                            'cmd:d1': 6600, 'cmd:dN': 3900, 'cmd:c@first': 8300, 'cmd:d@first': 5500, 'cmd:d@last':
                            6700, 'cmd:c@last': 10000, 'shape:adjacent-hunks': 7600, 'shape:old-empty': 4100,
@@ -113,9 +164,22 @@ FLOORS = {
                            'brk:reject/cut-after-tail-dot-line': 1800, 'brk:reject/enc:latin-1': 2000,
                            'reject-class:break-in-command': 1400, 'reject-class:truncation/no-final-newline': 3900,
                            'reject:trunc-multi:first': 910, 'reject:trunc-multi:middle': 3100,
-                           'reject:trunc-multi:last': 3100}},
+                           'reject:trunc-multi:last': 3100,
+                           'collect:use:list': 29000, 'collect:use:tuple': 29000, 'collect:use:two-pass': 29000,
+                           'collect:src:list': 28000, 'collect:src:iter': 28000, 'collect:src:file': 28000,
+                           'collect:src:disk': 4000, 'collect:mode:str': 45000, 'collect:mode:bytes': 45000,
+                           'collect:patches>=2': 15000, 'collect:different-texts>=2': 18000,
+                           'collect:different-texts>=2/use:list': 6000, 'collect:different-texts>=2/use:tuple': 6000,
+                           'collect:different-texts>=2/use:two-pass': 6000, 'collect:script-list-parsed-twice': 9500,
+                           'empty:apply': 6500, 'empty:mode:str': 6500, 'empty:mode:bytes': 6500,
+                           'empty:old-empty': 1600, 'empty:old-empty/src:list': 480, 'empty:old-empty/src:iter': 480,
+                           'empty:old-empty/src:file': 480, 'empty:old-empty/src:disk': 140,
+                           'empty:old-has-break': 700, 'empty:src:list': 1900, 'empty:src:iter': 1900,
+                           'empty:src:file': 1900, 'empty:src:disk': 580, 'empty:use:list': 4400,
+                           'empty:use:tuple': 4200, 'empty:use:two-pass': 4300}},
     'thorough': {'nontrivial': 1700000,
-                 'monitors': {'M.apply': 2500000, 'M.reject': 2700000, 'M.apply.brk': 250000, 'M.reject.brk': 480000},
+                 'monitors': {'M.apply': 2600000, 'M.reject': 2700000, 'M.apply.brk': 250000, 'M.reject.brk': 480000,
+                              'M.collect': 2700000, 'M.triples': 2700000, 'M.apply.empty': 460000},
                  'counters': {'cmd:a@0': 310000, 'cmd:a@end': 140000, 'cmd:a@mid': 170000, 'cmd:c1': 330000, 'cmd:cN':
                               190000, 'cmd:d1': 200000, 'cmd:dN': 130000, 'cmd:c@first': 280000, 'cmd:d@first': 190000,
                               'cmd:d@last': 230000, 'cmd:c@last': 350000, 'shape:adjacent-hunks': 200000,
@@ -134,10 +198,26 @@ FLOORS = {
                               'brk:reject/truncation': 170000, 'brk:reject/cut-after-tail-dot-line': 36000,
                               'brk:reject/enc:latin-1': 44000, 'reject-class:break-in-command': 40000,
                               'reject-class:truncation/no-final-newline': 110000, 'reject:trunc-multi:first': 29000,
-                              'reject:trunc-multi:middle': 98000, 'reject:trunc-multi:last': 98000}},
+                              'reject:trunc-multi:middle': 98000, 'reject:trunc-multi:last': 98000,
+                              'collect:use:list': 900000, 'collect:use:tuple': 900000, 'collect:use:two-pass': 900000,
+                              'collect:src:list': 850000, 'collect:src:iter': 850000, 'collect:src:file': 850000,
+                              'collect:src:disk': 100000, 'collect:mode:str': 1300000, 'collect:mode:bytes': 1300000,
+                              'collect:patches>=2': 330000, 'collect:different-texts>=2': 410000,
+                              'collect:different-texts>=2/use:list': 130000,
+                              'collect:different-texts>=2/use:tuple': 130000,
+                              'collect:different-texts>=2/use:two-pass': 130000,
+                              'collect:script-list-parsed-twice': 280000,
+                              'empty:apply': 230000, 'empty:mode:str': 230000, 'empty:mode:bytes': 230000,
+                              'empty:old-empty': 59000, 'empty:old-empty/src:list': 18000,
+                              'empty:old-empty/src:iter': 18000, 'empty:old-empty/src:file': 18000,
+                              'empty:old-empty/src:disk': 4000, 'empty:old-has-break': 22000, 'empty:src:list': 71000,
+                              'empty:src:iter': 71000, 'empty:src:file': 71000, 'empty:src:disk': 17000,
+                              'empty:use:list': 150000, 'empty:use:tuple': 150000, 'empty:use:two-pass': 150000}},
 }
-DIFFE_FLOOR = {'quick': 2100, 'thorough': 120000}      # only demanded when `diff` is installed
+DIFFE_FLOOR = {'quick': 2700, 'thorough': 145000}      # only demanded when `diff` is installed
 DIFFE_BRK_FLOOR = {'quick': 160, 'thorough': 8500}     # ... of which scripts whose text blocks carry an embedded break
+DIFFE_EMPTY_FLOOR = {'quick': 470, 'thorough': 16000}   # ... `diff -e` of two equal files (prints nothing)
+DIFFE_EMPTY_FILE_FLOOR = {'quick': 110, 'thorough': 4000}    # ... of which both files are empty
 
 ALPHA = ['a', 'b', 'c', '', 'x y', '..', '. ', ' .', '.x', '...', '1a', '2,3d', 'd', '0a', '3c', '1,2c', 'a.',
          'é', '١a', '\t', 'x\r', '.\r', 's/.//', 'w', 'q']
@@ -408,6 +488,11 @@ def conclusive(tier, counters, monitor_evals, extra):
     if extra.get('diff_e') == 'available' and counters.get('brk:apply/via:diffe', 0) < DIFFE_BRK_FLOOR[tier]:
         return 'diff is installed but only %d diff -e scripts with an embedded line-boundary character were evaluated ' \
                '(floor %d)' % (counters.get('brk:apply/via:diffe', 0), DIFFE_BRK_FLOOR[tier])
+    if extra.get('diff_e') == 'available':
+        for name, floor in (('empty:via:diffe', DIFFE_EMPTY_FLOOR[tier]),
+                            ('empty:old-empty/via:diffe', DIFFE_EMPTY_FILE_FLOOR[tier])):
+            if counters.get(name, 0) < floor:
+                return 'diff is installed but counter %s = %d (floor %d)' % (name, counters.get(name, 0), floor)
     if counters.get('src:file-cannot-carry', 0):
         return '%d file sources did not hand the script lines over unchanged (harness assumption broken)' \
                % counters.get('src:file-cannot-carry', 0)
@@ -918,6 +1003,17 @@ def check_collected(ctx, ds, old_t, s, new_t, want, src, mode, use, small, empty
                     mech = 'text-block-lines-resplit'
                 else:
                     mech = 'text-differs-from-script'
+                    if at_yield is None:                # naming only: was it right at the moment it was yielded?
+                        try:
+                            src2 = _source(ctx, s, eff, mode)[0]
+                            try:
+                                snaps = [_snap(p) for p in ds.patches_from_ed_script(src2)]
+                            finally:
+                                _close(src2)
+                            if len(snaps) == len(want) and snaps[k] is not None and snaps[k][2] == w[2]:
+                                mech = 'text-changed-after-yield'
+                        except Exception:       # noqa - naming only
+                            pass
                 break
         if mech is None:
             for g, w in zip(final, want):
@@ -938,7 +1034,8 @@ def check_collected(ctx, ds, old_t, s, new_t, want, src, mode, use, small, empty
     try:
         ds.patch_lines(o1, patches)
     except Exception as e:
-        ctx.violation('collected-patches/%s' % (mech or 'apply-raised/%s' % type(e).__name__),
+        ctx.violation('empty-script-rejected/%s' % type(e).__name__ if empty
+                      else 'collected-patches/%s' % (mech or 'apply-raised/%s' % type(e).__name__),
                       '%s script %r: patch_lines(lines, %s of patches) raised %r; patches=%r reference=%r'
                       % (mode, s, use, e, patches, want), small)
         return
